@@ -861,6 +861,12 @@ pub fn main(a: &Args) {
         }
     }
     let mut nodes = 0u64;
+    let tries: Vec<serde_json::Value> = specs
+        .iter()
+        .map(|s| serde_json::json!({"id": s.id, "start": STARTS[s.start].0, "well_formed_start": STARTS[s.start].1,
+            "operations_in_alphabet": s.alphabet.len(), "max_length": s.depth,
+            "alphabet": s.alphabet.iter().map(op_text).collect::<Vec<_>>().join(" ")}))
+        .collect();
     for spec in &specs {
         let (start, wf) = STARTS[spec.start];
         let root = match new_hist(start, wf, &tmp) {
@@ -988,7 +994,7 @@ pub fn main(a: &Args) {
     );
     write_file(&a.out.join("oracle.jsonl"), &sink.oracle);
     let summary = serde_json::json!({
-        "shards": shards, "trie_nodes": nodes, "random_histories": nrand, "random_steps": hist_steps,
+        "shards": shards, "tries": tries, "trie_nodes": nodes, "random_histories": nrand, "random_steps": hist_steps,
         "operations_applied": sink.steps, "save_load_round_trips": sink.saveloads, "outcomes": sink.outs,
         "oracle_failures": sink.failures, "oracle_failures_not_written": sink.known_hits,
         "names": NAMES.iter().map(|n| n.to_string()).collect::<Vec<_>>(),
